@@ -132,6 +132,18 @@ mod verif_c20 {
     kani::cover!(true, "reached");
   }
 
+  /// One fully concrete doubled-prefix token, in its own harness.  This is a single input, not a range: it exists only so
+  /// that the check still answers (rather than timing out) when an implementation strips the prefix with a substring
+  /// searcher, whose loops over a partly symbolic token did not finish within the harness timeout.  The symbolic form
+  /// of the same obligation is `C20.addr.doubled_prefix_rejected` in c20_addr_malformed_prefixes.
+  #[kani::proof]
+  #[kani::unwind(10)]
+  fn c20_addr_doubled_prefix_concrete() {
+    let a = [b'0', b'x', b'0', b'x', b'1', b'2'];
+    vassert!(parse_address(unsafe { core::str::from_utf8_unchecked(&a) }) == None, "C20.addr.doubled_prefix_rejected_concrete");
+    kani::cover!(true, "reached");
+  }
+
   /// Arbitrary printable-ASCII tokens up to 5 bytes: total (no panic), and a decimal reading only for digit strings.
   #[kani::proof]
   #[kani::unwind(10)]
